@@ -6,7 +6,7 @@ from props import arbgen, arbprop
 PROP = "C04"
 PROPS_FILES = ["Nic/Props/C04.lean", "Nic/Props/TieArb.lean"]
 # Go functions translated from /repo on every run (tools/gofn) and proved equal to the model in the Tie file above
-TIE_FUNCS = ['internal/k8s/configuration.go:chooseObjectMetaWinner', 'internal/k8s/configuration.go:compareObjectMetas', 'internal/k8s/configuration.go:compareObjectMetasWithAnnotations', 'internal/k8s/configuration.go:getResourceKey', 'internal/k8s/configuration.go:getResourceKeyWithKind', 'internal/k8s/utils.go:isMinion', 'internal/k8s/utils.go:isMaster']
+TIE_FUNCS = ['internal/k8s/configuration.go:chooseObjectMetaWinner', 'internal/k8s/configuration.go:compareObjectMetas', 'internal/k8s/configuration.go:compareObjectMetasWithAnnotations', 'internal/k8s/configuration.go:getResourceKey', 'internal/k8s/configuration.go:getResourceKeyWithKind', 'internal/k8s/utils.go:isMinion', 'internal/k8s/utils.go:isMaster', 'pkg/apis/configuration/validation/virtualserver.go:isRegexOrExactMatch', 'pkg/apis/configuration/validation/globalconfiguration.go:generatePortProtocolKey']
 HARNESS = "vh-k8s"
 RULE = ("histories biased to masters, minions (1..3 paths from {/p,/q,/r}, sometimes a path listed twice, 2 hosts), VirtualServers whose routes "
         "reference VirtualServerRoutes by bare name and by namespace/name (2 namespaces) with prefix, exact (=) and regex (~) paths, and "
